@@ -19,7 +19,7 @@ import (
 // Locations of document text in the generated "rich" document (the location kinds of SecLeak.tla).
 var richLocs = []string{
 	"info", "content", "annot", "form", "names", "embfile", "embname", "nested", "hexstr", "streamdict",
-	"flate", "asciihex", "outline", "xmp", "sigcontents", "sigwidget",
+	"flate", "asciihex", "outline", "xmp", "sigcontents", "sigwidget", "sigmeta",
 	"indstr_annot", "indstr_array", "indstr_info", "indstr_page", "indstr_catalog",
 }
 
@@ -132,8 +132,8 @@ func richDocForm(version string, mk func(loc string) string, sig bool, form stri
 	annots1 := fmt.Sprintf("%d 0 R %d 0 R", annot, field)
 	fields := fmt.Sprintf("%d 0 R", field)
 	if sig {
-		sigv := d.Add(fmt.Sprintf("<< /Type /Sig /Filter /Adobe.PPKLite /SubFilter /adbe.pkcs7.detached /ByteRange [0 10 20 10] /Contents <%s> /Name (signer) /M (D:20240101000000Z) >>",
-			hex.EncodeToString([]byte(mk("sigcontents")))))
+		sigv := d.Add(fmt.Sprintf("<< /Type /Sig /Filter /Adobe.PPKLite /SubFilter /adbe.pkcs7.detached /ByteRange [0 10 20 10] /Contents <%s> /Name %s /Reason %s /Location %s /ContactInfo %s /M (D:20240101000000Z) >>",
+			hex.EncodeToString([]byte(mk("sigcontents"))), S("sigmeta"), S("sigmeta"), S("sigmeta"), S("sigmeta")))
 		sigf := d.Add(fmt.Sprintf("<< /Type /Annot /Subtype /Widget /FT /Sig /T (sig1) /Contents %s /V %d 0 R /F 132 /Rect [0 0 0 0] /P %d 0 R >>", S("sigwidget"), sigv, page1))
 		annots1 += fmt.Sprintf(" %d 0 R", sigf)
 		fields += fmt.Sprintf(" %d 0 R", sigf)
